@@ -328,6 +328,9 @@ func (s *Session) StallBroker(capacity int) {
 	s.MQ.B.SetReadDeadline(time.Now())
 }
 
+// BrokerReset makes the gateway's reads on the MQTT connection fail with "connection reset by peer".
+func (s *Session) BrokerReset() { s.MQ.A.ResetByPeer() }
+
 // BrokerClose closes the broker's end of the MQTT connection.
 func (s *Session) BrokerClose() { s.MQ.B.Close() }
 
